@@ -296,3 +296,8 @@ def run(ctx, eng):
                'across different streams is not decided')
     from . import c21
     c21.check_block_continuity(ctx, eng)
+    cm.include(ctx, eng, 'C09', {'ARITH.id-low', 'ORD.id-bookkeeping'},
+               'a stream id is used once: every creation path (HEADERS and '
+               'PUSH_PROMISE alike) refuses an id that is not above the '
+               'watermark, so no second message can be reported on it')
+    cm.check_event_classes(ctx, eng)
